@@ -234,21 +234,43 @@ def history(rng, profile=None, length=None):
     return g.ops
 
 
-def retry_history(rng):
-    """one application, one category failing over and over (attempt limits), with new data in between"""
+def retry_history(rng, probe=False):
+    """one application, one category failing over and over (attempt limits), with new data in between.
+    probe: the category is certainly enabled, every transaction carries data of it, every failure is retryable and there
+    are more failures than either attempt limit allows"""
     g = Gen(rng, napps=1, profile="nofatal", timeout=0)
-    g.defapp(1)
-    run = g.connect("k1")
-    cat_bit = rng.choice([1, 16, 32, 64, 128, 256])
+    cat_bit = rng.choice([1, 16, 32, 64, 128, 256, 256] if probe else [1, 16, 32, 64, 128, 256])
     cmd = "metric_data" if cat_bit == 1 else EVENT_CMDS[cat_bit]
     mask = DEFAULT if cat_bit == 1 else cat_bit
-    g.txn(run)
-    g.txn(run)
-    for i in range(rng.randint(3, 14)):
+    key = {16: "ev", 32: "ce", 64: "ee", 128: "se", 256: "le"}.get(cat_bit)
+    if probe:
+        g.ops.append("proc defapp k1 lic=LIC1 name=app1 redirect=- lang=php ver=1.1 host=h1 dt=%d span=10000 log=10000 custom=30000 docker=-" % rng.choice([0, 1]))
+        g.apps.append("k1")
+        g.ops.append("proc app k1 run=-")
+        g.ops.append("proc reply k1 preconnect 0 200 host=coll-k1.example")
+        run = "r1www"
+        g.nrun = 1
+        g.ops.append("proc reply k1 connect 0 200 run=%s rp=%s ee=- ae=- ce=- se=- le=%s srp=- sl=- rules=- hdr=-" % (
+            run, rng.choice(["-", "60000", "5000"]), rng.choice(["-", "10000", "50"])))
+        g.run_of["k1"] = run
+    else:
+        g.defapp(1)
+        run = g.connect("k1")
+    # damaged log events (never sent, but held and carried over like the others) mixed into a failing log payload
+    short = cat_bit == 256 and rng.random() < 0.6
+
+    def txn(first=False):
+        sl = short and not first and rng.random() < 0.5
+        g.txn(run, shortlog=sl)
+        if probe and key and (" %s=" % key) not in g.ops[-1]:
+            g.ops[-1] += " %s=%s" % (key, ",".join(map(str, g.fresh(1 if key == "ev" else rng.randint(1, 2)))))
+    txn(True)
+    txn()
+    for i in range(rng.randint(12, 16) if probe else rng.choice([rng.randint(3, 14), rng.randint(12, 16)])):
         if rng.random() < 0.5:
-            g.txn(run)
+            txn()
         g.ops.append("proc trigger %s %d" % (run, mask))
-        status = rng.choice(RETRY) if rng.random() < 0.9 else rng.choice(NORETRY + ["200"])
+        status = rng.choice(RETRY) if probe or rng.random() < 0.9 else rng.choice(NORETRY + ["200"])
         if cat_bit == 1:
             for c in ["error_data", "sql_trace_data", "transaction_sample_data", "update_loaded_modules"]:
                 g.ops.append("proc reply %s %s 0 %s" % (run, c, rng.choice(["200", "200", "503", "404"])))
